@@ -17,6 +17,7 @@ def gen_gather(rng):
     for s in sc["specs"]:
         s["flag"] = None if (s["flag"] and s["flag"][0] == "c") else s["flag"]
     sc["k"] = rng.randint(2, 8)
+    sc["gather_setup"] = rng.random() < 0.3
     r = rng.random()
     if r < 0.35:
         # async-thread pipelines of several STAGES: the awaits really interleave (each await point of one run lets the
@@ -74,7 +75,15 @@ def run_gather(sc, seed):
     k = sc["k"]
 
     async def main():
-        return await asyncio.gather(*[d(1000 + j) for j in range(k)])
+        aws = [d(1000 + j) for j in range(k)]
+        if sc.get("gather_setup"):
+            # explicit setup() awaits next to the calls (one first, one in the middle): whoever gets there first computes
+            # the setup values, nobody fails, every call gets its own result
+            aws = [d.setup()] + aws[:k // 2] + [d.setup()] + aws[k // 2:]
+        res = await asyncio.gather(*aws)
+        if sc.get("gather_setup"):
+            res = [r for i_, r in enumerate(res) if i_ not in (0, 1 + k // 2)]     # drop the two setup() slots
+        return res
 
     R, outcome = control.run_controlled(lambda: asyncio.run(main()), control.Script(rng=random.Random(seed)), timeout=25)
     return outcome
